@@ -70,6 +70,34 @@ theorem newPubkey_consumes (rc : Crypto) (chainId : String) (rel : State) (s : B
     unfold Consumed consumeVote
     exact ⟨⟨rfl, rfl, rfl, rfl, rfl, rfl⟩, hq.2.1, hq.2.2.1⟩
 
+theorem processWithdrawal_consumes (c : Bitcoin.Crypto) (rc : Crypto) (chainId : String) (rel : State) (s : Bitcoin.State)
+    (vote : VoteMsg) (hv : Bool) (ids : List Nat) (tx : Bytes) (fee : Nat) (r : State × Bitcoin.State)
+    (h : Bitcoin.processWithdrawal c rc chainId rel s vote hv ids tx fee = .ok r) :
+    Consumed rc rel r.1 vote.signature ∧ vote.seq = rel.seq ∧ vote.epoch = rel.epoch := by
+  cases hvp : verifyProposal rc chainId rel { vote with method := "Bitcoin/ProcessWithdrawal", sigDoc := (ids.map le64).flatten ++ rc.sha256 tx ++ le64 fee } with
+  | err e => exfalso; unfold Bitcoin.processWithdrawal at h; simp only [hvp] at h; repeat (split at h <;> try cases h)
+  | panic e => exfalso; unfold Bitcoin.processWithdrawal at h; simp only [hvp] at h; repeat (split at h <;> try cases h)
+  | ok p =>
+    obtain ⟨rel1, q⟩ := p
+    have hc := verify_then_consume rc chainId rel rel1 _ q hvp
+    unfold Bitcoin.processWithdrawal at h; simp only [hvp] at h
+    repeat (split at h <;> try cases h)
+    all_goals exact hc
+
+theorem replaceWithdrawal_consumes (c : Bitcoin.Crypto) (rc : Crypto) (chainId : String) (rel : State) (s : Bitcoin.State)
+    (vote : VoteMsg) (hv : Bool) (pid : Nat) (tx : Bytes) (fee : Nat) (r : State × Bitcoin.State)
+    (h : Bitcoin.replaceWithdrawal c rc chainId rel s vote hv pid tx fee = .ok r) :
+    Consumed rc rel r.1 vote.signature ∧ vote.seq = rel.seq ∧ vote.epoch = rel.epoch := by
+  cases hvp : verifyProposal rc chainId rel { vote with method := "Bitcoin/ReplaceWithdrawal", sigDoc := le64 pid ++ le64 fee ++ rc.sha256 tx } with
+  | err e => exfalso; unfold Bitcoin.replaceWithdrawal at h; simp only [hvp] at h; repeat (split at h <;> try cases h)
+  | panic e => exfalso; unfold Bitcoin.replaceWithdrawal at h; simp only [hvp] at h; repeat (split at h <;> try cases h)
+  | ok p =>
+    obtain ⟨rel1, q⟩ := p
+    have hc := verify_then_consume rc chainId rel rel1 _ q hvp
+    unfold Bitcoin.replaceWithdrawal at h; simp only [hvp] at h
+    repeat (split at h <;> try cases h)
+    all_goals exact hc
+
 /-! ### everything else leaves the sequence and the randao alone -/
 
 theorem nonProposal_keeps_seq (rel rel' : State) (p : String) (h : verifyNonProposal rel p = .ok rel') :
